@@ -415,6 +415,62 @@ func (c *Ctx) taintedSyms(a Affine) map[string]bool {
 // required mentions parameters of fn, it is enough that it follows at every
 // library call site with the arguments substituted.
 func (c *Ctx) entailedHere(fn *ssa.Function, blk *ssa.BasicBlock, required Affine) (bool, string) {
+	return c.entailedAt(fn, blk, nil, required)
+}
+
+// untouchedBefore: nothing in fn is done with parameter p (no call takes it, it
+// is not stored or copied anywhere) on a path from the entry to instruction at,
+// so the object behind p is at `at` what it was at the call site.
+func untouchedBefore(fn *ssa.Function, p *ssa.Parameter, at ssa.Instruction) bool {
+	if at == nil || p.Referrers() == nil {
+		return false
+	}
+	var toAt map[int]bool // blocks from which at's block is reachable
+	for _, r := range *p.Referrers() {
+		if r == at {
+			continue
+		}
+		if _, isDbg := r.(*ssa.DebugRef); isDbg {
+			continue
+		}
+		rb := r.Block()
+		if rb == at.Block() {
+			for _, in := range rb.Instrs {
+				if in == r {
+					return false
+				}
+				if in == at {
+					break
+				}
+			}
+			// r comes after at in the same block: matters only if the block is in a cycle
+			seen, _ := ir.Reach(fn, rb, nil)
+			for _, pb := range rb.Preds {
+				if seen[pb.Index] {
+					return false
+				}
+			}
+			continue
+		}
+		if toAt == nil {
+			toAt = map[int]bool{}
+			for _, b := range fn.Blocks {
+				if seen, _ := ir.Reach(fn, b, nil); seen[at.Block().Index] {
+					toAt[b.Index] = true
+				}
+			}
+		}
+		if toAt[rb.Index] {
+			return false
+		}
+	}
+	return true
+}
+
+// entailedAt is entailedHere for a requirement at instruction at (nil: not
+// known): a length symbol len(p) of a parameter p that fn leaves alone before
+// at is the length of the argument at the call site.
+func (c *Ctx) entailedAt(fn *ssa.Function, blk *ssa.BasicBlock, at ssa.Instruction, required Affine) (bool, string) {
 	facts := c.factsAt(fn, blk)
 	if entails(required, facts) {
 		return true, ""
@@ -429,7 +485,17 @@ func (c *Ctx) entailedHere(fn *ssa.Function, blk *ssa.BasicBlock, required Affin
 			params = append(params, p)
 		}
 	}
-	if len(params) == 0 {
+	// len(p) of an object handed in by the caller and not touched before the sink
+	lenParams := map[string]int{}
+	if at != nil {
+		for i, q := range fn.Params {
+			sym := "len(" + resolvedPath(q) + ")"
+			if _, ok := required.T[sym]; ok && untouchedBefore(fn, q, at) {
+				lenParams[sym] = i
+			}
+		}
+	}
+	if len(params) == 0 && len(lenParams) == 0 {
 		return false, "not implied by the dominating comparisons (required: " + required.String() + " >= 0)"
 	}
 	n := c.P.CallGraph().Nodes[fn]
@@ -458,6 +524,14 @@ func (c *Ctx) entailedHere(fn *ssa.Function, blk *ssa.BasicBlock, required Affin
 			delete(req.T, sym)
 			req = req.add(affineOf(args[idx], 0).scale(coeff), 1)
 		}
+		for sym, idx := range lenParams {
+			if idx >= len(args) {
+				return false, "cannot map parameter"
+			}
+			coeff := req.T[sym]
+			delete(req.T, sym)
+			req = req.add(symAffine("len("+resolvedPath(args[idx])+")", nil).scale(coeff), 1)
+		}
 		sites++
 		siteFacts := c.factsAt(e.Caller.Func, e.Site.Block())
 		if !entails(req, siteFacts) {
@@ -484,6 +558,12 @@ func remFactsOf(gs []guardFact) []remFact {
 			op = negate(op)
 		}
 		if op != token.EQL {
+			// the remainder is unsigned: rem > 0 not taken, rem < 1, 0 >= rem ... say rem == 0
+			if x, zero := unsignedZeroOnEdge(g.cmp, g.truth); zero {
+				if rem, isRem := ir.StripConv(x).(*ssa.BinOp); isRem && rem.Op == token.REM {
+					out = append(out, remFact{affineOf(rem.X, 0), resolvedPath(rem.Y)})
+				}
+			}
 			continue
 		}
 		// (P / Q) * Q == P says the same as P % Q == 0
@@ -688,7 +768,22 @@ func (c *Ctx) remLoopIdiom(s *sink, a, b ssa.Value) bool {
 			continue
 		}
 		if !hasRem(in.fn, in.blk, affineOf(in.v, 0), resolvedPath(b)) {
-			return false
+			// the divisibility was tested on the variable itself, after it got its initial
+			// value and before the loop: the fact reads the cell where it still holds that value
+			viaCell := false
+			for _, rf := range c.remFactsAt(s.fn, s.instr.Block(), 0) {
+				if rf.Q != resolvedPath(b) || rf.P.K != 0 || len(rf.P.T) != 1 {
+					continue
+				}
+				for sym, cf := range rf.P.T {
+					if iv := cellInitAt(ir.StripConv(rf.P.Sym[sym])); cf == 1 && iv != nil && iv == in.v {
+						viaCell = true
+					}
+				}
+			}
+			if !viaCell {
+				return false
+			}
 		}
 	}
 	return true
@@ -768,6 +863,9 @@ func (c *Ctx) judgeSink(s *sink) (ok bool, trivial bool, detail string) {
 			return true, false, ""
 		} else if c.remLoopIdiom(s, a, b) {
 			return true, false, ""
+		} else if c.readOnlyWhereEntailed(s, req) {
+			// computed ahead of the check, read only behind it: a wrapped value is never looked at
+			return true, false, ""
 		} else {
 			return false, false, "the subtraction may wrap: " + why
 		}
@@ -791,10 +889,15 @@ func (c *Ctx) judgeSink(s *sink) (ok bool, trivial bool, detail string) {
 			}
 		case *ssa.Slice:
 			lenSym = symAffine("len("+resolvedPath(x.X)+")", nil)
+			// the bytes of a buffer are as long as the buffer: buf.Bytes()[:n] is bounded
+			// like buf.Truncate(n), by what buf.Len() reports
+			if bc, isC := ir.StripConv(x.X).(*ssa.Call); isC && ir.CallID(bc) == "bytes.Buffer.Bytes" && len(bc.Call.Args) == 1 {
+				lenSym = symAffine("len("+resolvedPath(bc.Call.Args[0])+")", nil)
+			}
 			haveLen = true
 		}
 		if haveLen {
-			if ok2, why := c.entailedHere(s.fn, blk, lenSym.add(a, -1)); !ok2 {
+			if ok2, why := c.entailedAt(s.fn, blk, s.instr, lenSym.add(a, -1)); !ok2 {
 				return false, false, "argument computed from input (" + t.Why(subj) + ") may exceed the length: " + why
 			}
 		}
@@ -849,6 +952,14 @@ func (c *Ctx) judgeSink(s *sink) (ok bool, trivial bool, detail string) {
 		req := lenA.add(a, -1)
 		req.K--
 		if ok2, why := c.entailedHere(s.fn, blk, req); !ok2 {
+			// the index cannot exceed what its own arithmetic allows (a narrow unsigned value
+			// shifted right, masked, reduced modulo a constant) and that is below a length
+			// known from the type or the constant indexed
+			if ub, isB := staticUpperBound(idx, 0); isB {
+				if n, isN := staticLen(base); isN && ub < n {
+					return true, false, ""
+				}
+			}
 			return false, false, "input-derived index (" + t.Why(idx) + ") is not bounded by the length: " + why
 		}
 		return true, false, ""
